@@ -47,7 +47,7 @@ def _spec(draw, tier):
 
 
 def strategy(tier):
-    return gens.with_pre(_spec(tier))
+    return gens.with_pre(_spec(tier), flush=8)    # the input synchroniser is reset-less by design: let it drain
 
 
 def check(spec, stats):
